@@ -7,7 +7,7 @@ import vlib, suites
 from fhgen import *
 
 RULE = ("FDE sets (1..200 quick, up to 4000 thorough; shuffled section order, 1-3 CIEs, gaps, adjacent and single-byte "
-        "ranges, absolute / pc-relative pointers, abs8 / GNU hdr encodings), probes at every boundary +-1, in gaps, "
+        "ranges, absolute / pc-relative / 4-byte pointers, CIEs grouped with their FDEs or first with interleaved FDEs and per-CIE encodings, aarch64 vendor opcodes, abs8 / GNU hdr encodings), probes at every boundary +-1, in gaps, "
         "before the first and after the last FDE, as ip and as ra; distinct = (arch, address kind, covered/gap/below/above)")
 ASSUMPTIONS = ["FDE ranges pairwise disjoint, non-empty, starts within 4 GiB above the image base (Props/C12.v fdes_wf)",
                "the .eh_frame_hdr table lists every FDE sorted by start (producer contract)"]
@@ -28,13 +28,18 @@ def generate(rng, tier):
                 pos += rng.choice([1, 2, 0x10, 0x100])
             ln = rng.choice([1, 1, 2, 4, 0x10, 0x40])
             fdes.append(dict(start=pos, len=ln, rows=[(0, suites.std_row(arch, "frameless", 2 + i % 61))]))
+            if arch == "a64" and i % 3 == 1:
+                fdes[-1]["vendor_at"] = 0          # DW_CFA_AARCH64_negate_ra_state before the row (return-address signing)
             pos += ln
         span = pos - base_svma + 0x100
+        # every other set: CIEs with different pointer encodings first, FDEs interleaved over them
+        mixed = idx % 4 in (1, 2)
         bases = []
         for j, pres in enumerate(("hdr", "eh", "debug")):
             ba = 0x10000000 * (j + 1)
             s.module_dwarf("M%d" % j, ba, ba + span, ba, base_svma, pres, fdes, rng, shuffle=True,
-                           n_cies=rng.range(1, 3), pcrel=(pres != "debug" and rng.chance(1, 2)),
+                           n_cies=(2 + idx % 2) if mixed else rng.range(1, 3), pcrel=(pres != "debug" and rng.chance(1, 2)),
+                           mixed=mixed,
                            hdr_enc=rng.choice(["abs8", "gnu"]) if base_svma < 0x80000000 else "abs8")
             bases.append(ba)
         s.mem("S", [(0x7000 + 8 * i, 0x50000 + i) for i in range(250)] + [(0x7800, 0x7900), (0x7808, 0x66666)])
